@@ -1,10 +1,40 @@
 import argparse
 import importlib
+import json
 import os
 import sys
 import traceback
 
 from . import core
+
+# which projections of sched.compare() each scheduler-family property reads (see harness/props/*)
+SCHED_KEYS = {"C01": ["C01"], "C02": ["C02"], "C03": ["C03"], "C05": ["C05"], "C06": ["C06"],
+              "C30": ["full", "C01", "C02", "C03", "C05"]}
+
+
+def replay_file(ctx, mod, path):
+    """./check <id> --replay <path>: run the recorded case again on the current tree.
+    exit 1 + VIOLATION line if it still fails, 0 if the property now holds on it, 2 if the case kind is unknown."""
+    obj = json.load(open(path))
+    case = obj.get("case", obj)
+    print("replaying %s: %s" % (path, obj.get("what", "")))
+    if hasattr(mod, "replay_case"):
+        bad = mod.replay_case(ctx, case)
+    elif ctx.prop in SCHED_KEYS and isinstance(case, dict) and "behaviour" in case and "config" in case:
+        from . import sched
+        real = sched.replay(case["config"], case["behaviour"], q=case.get("q", 0.25), mode=case.get("mode", "do"),
+                            flavours=(case.get("real") or {}).get("flav"))
+        cmpd = sched.compare(case["config"], case["behaviour"], real)
+        bad = [m for k in SCHED_KEYS[ctx.prop] for m in cmpd[k]]
+    else:
+        print("MACHINERY-FAILURE: this replay file does not hold a re-runnable case (model-level finding); rerun the check")
+        return 2
+    if bad:
+        print("VIOLATION property=%s replay=%s" % (ctx.prop, path))
+        print("  what: %s" % bad[0])
+        return 1
+    print("replay: the property holds on this case on the current tree")
+    return 0
 
 
 def main():
@@ -20,7 +50,13 @@ def main():
         mod = importlib.import_module("harness.props.%s" % a.prop.lower())
         ctx = core.Ctx(a.prop, a.tier, seed)
         ctx.replay = a.replay
-        rc = mod.run(ctx)
+        if a.replay:
+            rc = replay_file(ctx, mod, a.replay)
+        else:
+            rc = mod.run(ctx)
+    except core.StopEarly as ex:
+        ctx.note("stopped exploring early: %s (the cap is core.MAX_VIOLATIONS)" % ex)
+        rc = ctx.finish(rule="(run stopped early after reporting violations)")
     except core.MachineryError as ex:
         print("MACHINERY-FAILURE: %s" % ex)
         rc = 2
